@@ -108,6 +108,10 @@ def r2_positional_binding(ctx: Ctx) -> None:
         elif it in ("range(len(macro_args))", "range(0, len(macro_args))") and isinstance(lp.target, ast.Name):
             idx_vars.append((lp, lp.target.id, f"macro_args[{lp.target.id}]"))
             ctx.ok(f"generate_macro_application:loop `{it}`", "iterates the positions of the macro's parameter list")
+        elif isinstance(lp.iter, ast.Call) and call_name(lp.iter) == "zip" and "macro_args" in [unparse(a) for a in lp.iter.args]:
+            strict = any(k.arg == "strict" and getattr(k.value, "value", False) is True for k in lp.iter.keywords)
+            ctx.check(strict, f"generate_macro_application:loop `{it}`", "zip() stops at the shorter list: with too few arguments the remaining parameters are silently left unbound "
+                      "instead of failing (only zip(..., strict=True) raises)")
         else:
             raise AnalysisError(f"generate_macro_application: loop over `{it}` is not a recognised walk of the parameter list")
     for lp, iv, pv in idx_vars:
